@@ -19,6 +19,10 @@ pub struct Reject {
     pub line: usize,
     pub item: String,
     pub reason: String,
+    /// generated module the rejection belongs to ("" = crate-wide purity gate)
+    pub module: String,
+    /// "function" | "codec" | "gate"
+    pub kind: String,
 }
 
 pub struct RunResult {
@@ -86,6 +90,9 @@ pub struct StructInfo {
     pub serde: bool,
     pub stem: String,
     pub line: usize,
+    /// false when a serde attribute the codec model does not understand is present
+    pub codec_ok: bool,
+    pub codec_why: String,
 }
 
 #[derive(Clone, Copy, Debug, PartialEq)]
@@ -167,12 +174,14 @@ impl Translator {
         }
     }
 
-    pub fn reject(&mut self, file: &str, line: usize, item: &str, reason: &str) {
+    pub fn reject_k(&mut self, file: &str, line: usize, item: &str, reason: &str, module: &str, kind: &str) {
         self.rejects.push(Reject {
             file: file.to_string(),
             line,
             item: item.to_string(),
             reason: reason.to_string(),
+            module: module.to_string(),
+            kind: kind.to_string(),
         });
     }
 
@@ -245,13 +254,20 @@ impl Translator {
                     syn::Item::Struct(s) => {
                         let name = s.ident.to_string();
                         let (derives, serde, bad) = parse_attrs(&s.attrs);
+                        let mut codec_ok = true;
+                        let mut codec_why = String::new();
                         for b in bad {
+                            if b.contains("serde") {
+                                // container-level serde attributes (from/into/try_from/…) change the wire format: codec only
+                                codec_ok = false;
+                                codec_why = format!("unsupported container serde attribute {}", b);
+                                continue;
+                            }
                             self.gate.push(Reject {
                                 file: f.path.clone(),
                                 line: s.span().start().line,
                                 item: name.clone(),
-                                reason: format!("unsupported attribute on struct: {}", b),
-                            });
+                                reason: format!("unsupported attribute on struct: {}", b), module: String::new(), kind: "gate".into() });
                         }
                         let mut fields = vec![];
                         if let syn::Fields::Named(nf) = &s.fields {
@@ -268,12 +284,8 @@ impl Translator {
                                         } else if txt.contains("(default)") || txt.contains("rename") {
                                             // no effect on bincode's positional format
                                         } else {
-                                            self.gate.push(Reject {
-                                                file: f.path.clone(),
-                                                line: fld.span().start().line,
-                                                item: format!("{}.{}", name, fname),
-                                                reason: format!("unsupported serde field attribute {}", txt),
-                                            });
+                                            codec_ok = false;
+                                            codec_why = format!("unsupported serde attribute on field {}: {}", fname, txt);
                                         }
                                     }
                                 }
@@ -291,13 +303,12 @@ impl Translator {
                                 file: f.path.clone(),
                                 line: s.span().start().line,
                                 item: name.clone(),
-                                reason: "tuple struct not supported".into(),
-                            });
+                                reason: "tuple struct not supported".into(), module: String::new(), kind: "gate".into() });
                         }
                         self.struct_order.push(name.clone());
                         self.structs.insert(
                             name.clone(),
-                            StructInfo { name, fields, derives, serde, stem: f.stem.clone(), line: s.span().start().line },
+                            StructInfo { name, fields, derives, serde, stem: f.stem.clone(), line: s.span().start().line, codec_ok, codec_why },
                         );
                     }
                     syn::Item::Enum(e) => {
@@ -306,7 +317,7 @@ impl Translator {
                         self.struct_order.push(name.clone());
                         self.structs.insert(
                             name.clone(),
-                            StructInfo { name, fields: vec![], derives, serde, stem: f.stem.clone(), line: e.span().start().line },
+                            StructInfo { name, fields: vec![], derives, serde, stem: f.stem.clone(), line: e.span().start().line, codec_ok: true, codec_why: String::new() },
                         );
                     }
                     syn::Item::Impl(im) => {
@@ -341,8 +352,7 @@ impl Translator {
                                 file: f.path.clone(),
                                 line: im.span().start().line,
                                 item: tyname.clone(),
-                                reason: format!("hand-written impl {} (purity gate)", tr),
-                            });
+                                reason: format!("hand-written impl {} (purity gate)", tr), module: String::new(), kind: "gate".into() });
                         }
                         self.impls.push(ImplRow { ty: tyname, trait_: tr, generics: gens, arg, stem: f.stem.clone() });
                     }
@@ -380,12 +390,12 @@ impl Translator {
             // macro_rules in lib.rs / test helpers
             let txt = quote::ToTokens::to_token_stream(&m.mac.path).to_string();
             if txt.contains("thread_local") || txt.contains("lazy_static") {
-                self.gate.push(Reject { file: f.path.clone(), line: m.span().start().line, item: txt.clone(), reason: "global/thread-local state (purity gate)".into() });
+                self.gate.push(Reject { file: f.path.clone(), line: m.span().start().line, item: txt.clone(), reason: "global/thread-local state (purity gate)".into(), module: String::new(), kind: "gate".into() });
             }
             return;
         }
         if let syn::Item::Static(s) = item {
-            self.gate.push(Reject { file: f.path.clone(), line: s.span().start().line, item: s.ident.to_string(), reason: "static item (purity gate)".into() });
+            self.gate.push(Reject { file: f.path.clone(), line: s.span().start().line, item: s.ident.to_string(), reason: "static item (purity gate)".into(), module: String::new(), kind: "gate".into() });
             return;
         }
         // token-level scan of non-test items for forbidden identifiers
@@ -406,7 +416,7 @@ impl Translator {
                 if f.stem == "Errors" && (id == "dyn" || id == "static") {
                     return;
                 }
-                self.gate.push(Reject { file: f.path.clone(), line, item: id.to_string(), reason: format!("`{}` is outside the plain-data subset (purity gate)", id) });
+                self.gate.push(Reject { file: f.path.clone(), line, item: id.to_string(), reason: format!("`{}` is outside the plain-data subset (purity gate)", id), module: String::new(), kind: "gate".into() });
             }
         });
     }
